@@ -352,6 +352,7 @@ pub struct Exec {
     kcache_shadow: HashMap<usize, ((u8, u32, u32, u32), u32)>,
     kcache_lookups: usize,
     scan_op: Option<&'static str>,
+    sig_of_ref: HashMap<Ref, u64>,
     /// a lazy `paths` iterator kept alive across other operations, and what it must yield
     pit: Option<Box<dyn Iterator<Item = Vec<i32>>>>,
     pit_expected: Vec<Vec<i32>>,
@@ -408,6 +409,7 @@ impl Exec {
             kcache_shadow: HashMap::new(),
             kcache_lookups: 0,
             scan_op: None,
+            sig_of_ref: HashMap::new(),
             pit: None,
             pit_expected: vec![],
             pit_pos: 0,
@@ -891,14 +893,15 @@ impl Exec {
             // signature (values on the 64 samples): a handle must keep it for as long as it is live
             let sg = self.signature(r);
             if let Some(g) = sg {
-                for i in 0..self.env.len() - 1 {
-                    if self.env[i] == r && self.live[i] {
-                        if let Some(Some(g0)) = self.sig.get(i) {
-                            if *g0 != g {
-                                self.fail(&["C01"], format!("handle {} changed its values on the sample assignments: {:#x} -> {:#x}", show_ref(r), g0, g));
-                            }
+                // (the signature this reference had when a live handle first carried it)
+                match self.sig_of_ref.get(&r).copied() {
+                    Some(g0) => {
+                        if g0 != g {
+                            self.fail(&["C01"], format!("handle {} changed its values on the sample assignments: {:#x} -> {:#x}", show_ref(r), g0, g));
                         }
-                        break;
+                    }
+                    None => {
+                        self.sig_of_ref.insert(r, g);
                     }
                 }
             }
@@ -1231,6 +1234,7 @@ impl Exec {
                     }
                 }));
                 self.pit = None; // (declared before the manager it borrows from is replaced)
+                self.sig_of_ref.clear();
                 self.env.clear();
                 self.live.clear();
                 self.exp.clear();
@@ -2084,6 +2088,15 @@ impl Exec {
                                             None => self.fail(&["C05"], format!("h{} = {} is reachable from the roots but can no longer be evaluated", i, show_ref(self.env[i]))),
                                         }
                                     }
+                                }
+                            }
+                        }
+                        // references of dead handles may be reused for other functions from now on
+                        self.sig_of_ref.clear();
+                        for i in 0..self.env.len() {
+                            if self.live[i] {
+                                if let Some(Some(g0)) = self.sig.get(i).copied() {
+                                    self.sig_of_ref.entry(self.env[i]).or_insert(g0);
                                 }
                             }
                         }
